@@ -1,5 +1,7 @@
 // instantiation driver: reflection / typed encode-decode (json_traits, decode_traits, encode_traits, macro families)
 #include <jsoncons/json.hpp>
+#include <jsoncons/json_cursor.hpp>
+#include <jsoncons/staj_iterator.hpp>
 #include <jsoncons_ext/cbor/cbor.hpp>
 #include <jsoncons_ext/msgpack/msgpack.hpp>
 #include <array>
@@ -147,4 +149,23 @@ void jcsa_use_reflect(const std::string& s, const std::vector<uint8_t>& b)
     jcsa_roundtrip<jcsa_reflect::colour>(s, b);
     jcsa_roundtrip<std::shared_ptr<jcsa_reflect::base>>(s, b);
     jcsa_roundtrip<std::vector<jcsa_reflect::all_members>>(s, b);
+}
+
+// staj array / object iterators over a pull cursor (views of the current event must not outlive it)
+void jcsa_use_staj_iterators(const std::string& s)
+{
+    using namespace jsoncons;
+    std::error_code ec;
+    json_string_cursor cursor(s);
+    auto view = staj_object_iterator<std::string, json>(cursor);
+    for (const auto& kv : view) { (void)kv; }
+    json_string_cursor cursor2(s);
+    auto view2 = staj_array_iterator<json>(cursor2);
+    for (const auto& v : view2) { (void)v; }
+    json_string_cursor cursor3(s);
+    auto view3 = staj_array_iterator<int>(cursor3, ec);
+    for (const auto& v : view3) { (void)v; }
+    json_string_cursor cursor4(s);
+    auto view4 = staj_object_iterator<std::string, std::string>(cursor4, ec);
+    for (const auto& kv : view4) { (void)kv; }
 }
